@@ -19,7 +19,7 @@ func init() {
 			"R2": "ready-group typestate in each request handler; nobody pre-readied",
 			"R3": "completion ↔ group-step pairing; who-may-call the group steps",
 			"R4": "asked sets: everyone for ready/ante; matching blind positions for blinds",
-			"R5": "signals carry the validated index",
+			"R5": "signals carry the validated index; a pay becomes a ready-group signal exactly while antes or blinds are collected (event of the hand's own state) and goes to the backend otherwise",
 			"R6": "auto-next on round close; state channel closed once on game close",
 			"R7": "response timeout wiring",
 			"R9": "each asked player is allowed the matching answer (ready / pay) in the same step and nobody else; after the group step succeeded the allowance is filtered out of every player's actions (others kept) and the ante / blinds received-hook gets the new state; the ante collection is skipped only when no ante is configured",
